@@ -2,7 +2,7 @@ HOOKS = dict(
     guard="verif",
     enable="go build -tags verif (the harness module /verif/harness replaces the btcwallet modules with /repo and its nested modules)",
     baseline_off_cmd='for m in $(cat /w/out/gomods.txt); do MF=$(cd /repo/$m && . /w/out/goenv.sh && gomodflag); (cd /repo/$m && go test $MF -json -vet=off -count=1 -timeout 25m ./...); done',
-    source_commits=["5b644b4", "b6fa4f8", "2d02f0b", "3b8c29c", "ed2464a", "5320acb"],
+    source_commits=["5b644b4", "b6fa4f8", "2d02f0b", "3b8c29c", "ed2464a", "5320acb", "a9d6c5c"],
     add_only=True,
 )
 
